@@ -445,3 +445,116 @@ def bytecode_roundtrip_real():
     b = V.real('a1', -32768, 32767.99)
     prog = [a, b, 'rmoveto', 'endchar']
     _bytecode_roundtrip(prog, exact=False, tol=1.0 / 131072)
+
+
+# ------------------------------------------------------------------------------------------------ subroutines and hints
+import fontTools.cffLib.transforms as TRF
+shim_all(TRF)
+
+
+class _Private:
+    def __init__(self, nominalWidthX, defaultWidthX, subrs):
+        self.nominalWidthX = nominalWidthX
+        self.defaultWidthX = defaultWidthX
+        self.Subrs = subrs
+        self.rawDict = {}
+        self.in_cff2 = False
+
+
+def _R(n, prefix='a'):
+    return [V.real('%s%d' % (prefix, i), -500, 500) for i in range(n)]
+
+
+def _hinted_font(shape, width):
+    """returns (main charstring, all charstrings).  Subr operands: index - 107 (bias for < 1240 subroutines)."""
+    a = _R(12)
+    h = _R(8, 'h')
+    w = [V.real('w', -300, 900)] if width else []
+    S0, S1 = -107, -106
+    subrs, gsubrs = [], []
+    if shape == 'main-only':
+        main = w + [h[0], h[1], 'hstem', h[2], h[3], 'vstem', a[0], a[1], 'rmoveto', a[2], a[3], 'rlineto', 'endchar']
+    elif shape == 'subr-only-hints':
+        subrs = [[h[0], h[1], 'hstem', 'return']]
+        main = w + [S0, 'callsubr', a[0], a[1], 'rmoveto', a[2], a[3], 'rlineto', 'endchar']
+    elif shape == 'subr-hints-then-operands':
+        subrs = [[h[0], h[1], 'hstem', a[0], a[1], 'return']]
+        main = w + [S0, 'callsubr', 'rmoveto', a[2], a[3], 'rlineto', 'endchar']
+    elif shape == 'subr-operands-for-hintmask':
+        subrs = [[h[2], h[3], 'return']]
+        main = w + [h[0], h[1], 'hstemhm', S0, 'callsubr', 'hintmask', b'\xc0', a[0], a[1], 'rmoveto', a[2], a[3], 'rlineto', 'endchar']
+    elif shape == 'subr-hints-and-path':
+        subrs = [[h[0], h[1], 'hstem', a[0], a[1], 'rmoveto', 'return']]
+        main = w + [S0, 'callsubr', a[2], a[3], 'rlineto', 'endchar']
+    elif shape == 'nested':
+        subrs = [[h[0], h[1], 'hstem', S1, 'callsubr', 'return'], [a[0], a[1], 'return']]
+        main = w + [S0, 'callsubr', 'rmoveto', a[2], a[3], 'rlineto', 'endchar']
+    elif shape == 'gsubr-path':
+        gsubrs = [[a[2], a[3], 'rlineto', a[4], a[5], a[6], a[7], a[8], a[9], 'rrcurveto', 'return']]
+        subrs = [[h[0], h[1], 'hstem', 'return']]
+        main = w + [S0, 'callsubr', a[0], a[1], 'rmoveto', S0, 'callgsubr', 'endchar']
+    elif shape == 'hintmask-mid':
+        main = w + [h[0], h[1], 'hstemhm', h[2], h[3], 'hintmask', b'\xc0', a[0], a[1], 'rmoveto', a[2], a[3], 'rlineto', 'hintmask', b'\x80', a[4], a[5], 'rlineto', 'endchar']
+    else:
+        raise ValueError(shape)
+    nominal = V.real('nominalWidthX', -100, 800)
+    default = V.real('defaultWidthX', 0, 800)
+    priv = _Private(nominal, default, [])
+    G = []
+    for p in subrs:
+        priv.Subrs.append(T2CharString(program=list(p), private=priv, globalSubrs=G))
+    for p in gsubrs:
+        G.append(T2CharString(program=list(p), private=priv, globalSubrs=G))
+    cs = T2CharString(program=list(main), private=priv, globalSubrs=G)
+    return cs, priv, G
+
+
+def _draw_cs(cs):
+    pen = RecordingPen()
+    cs.draw(pen)
+    return pen.value, cs.width
+
+
+HINT_SHAPES = ['main-only', 'subr-only-hints', 'subr-hints-then-operands', 'subr-operands-for-hintmask', 'subr-hints-and-path', 'nested', 'gsubr-path', 'hintmask-mid']
+
+
+@kernel('C12', funcs=['cffLib/transforms.py:remove_hints', 'cffLib/transforms.py:_DehintingT2Decompiler.execute', 'cffLib/transforms.py:_DehintingT2Decompiler.processSubr',
+                      'cffLib/transforms.py:_DehintingT2Decompiler.processHint', 'cffLib/transforms.py:_DehintingT2Decompiler.processHintmask', 'cffLib/transforms.py:_cs_drop_hints'],
+        bounds='one-glyph CFF font; charstring shapes with stem hints in the glyph and/or in local subroutines (a subroutine that is only hints; hints followed '
+               'by operands it leaves on the stack for the caller; operands that become an implicit vstem of the caller\'s hintmask; hints followed by path '
+               'operators; nested calls; a global subroutine with path operators; hintmask in mid-path), with and without a width operand; ALL operands '
+               'symbolic reals: after remove_hints the glyph draws the same outline and has the same advance width, and no hint operator is left',
+        quick=[dict(shape=s, width=w) for s in HINT_SHAPES for w in (0, 1)])
+def remove_hints_keeps_outline(shape, width):
+    cs, priv, G = _hinted_font(shape, width)
+    before, w0 = _draw_cs(cs)
+    font = type('F', (), {})()
+    font.CharStrings = {'a': cs}
+    font.Private = priv
+
+    class Set(dict):
+        pass
+    cff = Set(f=font)
+    TRF.remove_hints(cff, removeUnusedSubrs=False)
+    after, w1 = _draw_cs(cs)
+    observe('n_events', len(after))
+    ob('same-outline', events_eq(before, after))
+    ob('same-width', eq(w0, w1))
+    left = [t for c in [cs] + list(priv.Subrs) + list(G) for t in c.program if isinstance(t, str) and t in ('hstem', 'vstem', 'hstemhm', 'vstemhm', 'hintmask', 'cntrmask')]
+    ob('no-hint-operator-left', not left)
+
+
+@kernel('C12', funcs=['cffLib/transforms.py:desubroutinizeCharString', 'cffLib/transforms.py:_DesubroutinizingT2Decompiler.execute', 'cffLib/transforms.py:_DesubroutinizingT2Decompiler.processSubr',
+                      'cffLib/transforms.py:_DesubroutinizingT2Decompiler.op_hintmask'],
+        bounds='the same charstring shapes: after desubroutinizeCharString the program contains no callsubr / callgsubr / return, and draws the same outline with the '
+               'same width without any subroutine table',
+        quick=[dict(shape=s, width=w) for s in HINT_SHAPES for w in (0, 1)])
+def desubroutinize_keeps_outline(shape, width):
+    cs, priv, G = _hinted_font(shape, width)
+    before, w0 = _draw_cs(cs)
+    TRF.desubroutinizeCharString(cs)
+    ob('no-calls-left', not [t for t in cs.program if t in ('callsubr', 'callgsubr', 'return')])
+    flat = T2CharString(program=list(cs.program), private=_Private(priv.nominalWidthX, priv.defaultWidthX, []), globalSubrs=[])
+    after, w1 = _draw_cs(flat)
+    ob('same-outline', events_eq(before, after))
+    ob('same-width', eq(w0, w1))
